@@ -10,7 +10,8 @@ CONSTANTS
   Offs <- OffsQuick
   Ats <- AtsQuick
   Ranges = {2, 3}
-  Funcs = {"count_over_time", "last_over_time"}
+  Funcs = {"count_over_time"}
+  TsFuncs = {"timestamp"}
   SqRanges = {4}
   SqSteps = {3}
   SqOffs <- SqOffsQuick
